@@ -134,6 +134,33 @@ extern "C" int __wrap_kill(pid_t pid, int sig) {
 static void fillPattern(void* p, size_t n, int slot) { unsigned char* c = (unsigned char*)p; for (size_t i = 0; i < n; i++) c[i] = (unsigned char)(0x41 + (slot + (int)i) % 26); }
 
 static uint64_t g_fired[K_COUNT];
+// every C-language check function, failing. They leave the test by longjmp: a frame that no C++ exception may cross (noexcept, like
+// compiled C code without unwind tables) must not be a problem for any of them.
+static void failCStyle(const Op& o, const char* text, const char* file, size_t line) noexcept {
+    static const unsigned char ba[4] = { 1, 2, 3, 4 }, bb[4] = { 1, 2, 9, 4 };
+    switch (o.a) {
+    case 0: CHECK_C_LOCATION(0, "cond_c", text, file, line); break;
+    case 1: FAIL_TEXT_C_LOCATION(text, file, line); break;
+    case 2: CHECK_EQUAL_C_INT_LOCATION(1, 2, text, file, line); break;
+    case 3: CHECK_EQUAL_C_STRING_LOCATION("abc", "abd", text, file, line); break;
+    case 4: CHECK_EQUAL_C_STRING_LOCATION(0, "abd", text, file, line); break;
+    case 5: CHECK_EQUAL_C_STRING_LOCATION("abc", 0, text, file, line); break;
+    case 6: CHECK_EQUAL_C_BOOL_LOCATION(1, 0, text, file, line); break;
+    case 7: CHECK_EQUAL_C_UINT_LOCATION(1u, 2u, text, file, line); break;
+    case 8: CHECK_EQUAL_C_LONG_LOCATION(1L, 2L, text, file, line); break;
+    case 9: CHECK_EQUAL_C_ULONG_LOCATION(1UL, 2UL, text, file, line); break;
+    case 10: CHECK_EQUAL_C_LONGLONG_LOCATION(1LL, 2LL, text, file, line); break;
+    case 11: CHECK_EQUAL_C_ULONGLONG_LOCATION(1ULL, 2ULL, text, file, line); break;
+    case 12: CHECK_EQUAL_C_REAL_LOCATION(1.0, 2.0, 0.1, text, file, line); break;
+    case 13: CHECK_EQUAL_C_CHAR_LOCATION('a', 'b', text, file, line); break;
+    case 14: CHECK_EQUAL_C_UBYTE_LOCATION(1, 2, text, file, line); break;
+    case 15: CHECK_EQUAL_C_SBYTE_LOCATION(-1, 2, text, file, line); break;
+    case 16: CHECK_EQUAL_C_POINTER_LOCATION((void*)0x1000, (void*)0x2000, text, file, line); break;
+    case 17: CHECK_EQUAL_C_MEMCMP_LOCATION(ba, bb, 4, text, file, line); break;
+    case 18: CHECK_EQUAL_C_MEMCMP_LOCATION(0, bb, 4, text, file, line); break;
+    default: CHECK_EQUAL_C_BITS_LOCATION(0x0f, 0xf0, 0xff, 1, text, file, line); break;
+    }
+}
 static void execOp(const Group& T, const Op& o) {
     g_fired[o.kind]++;
     const char* file = o.s.empty() ? T.sarg(2) : o.s.c_str();
@@ -169,17 +196,26 @@ static void execOp(const Group& T, const Op& o) {
         case 4: CHECK_EQUAL_LOCATION(1, 2, text, file, line); break;
         case 5: DOUBLES_EQUAL_LOCATION(1.0, 2.0, 0.1, text, file, line); break;
         case 6: MEMCMP_EQUAL_LOCATION(blobA, blobB, 4, text, file, line); break;
-        default: POINTERS_EQUAL_LOCATION((void*)0x1000, (void*)0x2000, text, file, line); break;
+        case 7: POINTERS_EQUAL_LOCATION((void*)0x1000, (void*)0x2000, text, file, line); break;
+        case 8: CHECK_FALSE_LOCATION(true, "CHECK_FALSE", "cond", text, file, line); break;
+        case 9: CHECK_COMPARE_LOCATION(2, <, 1, text, file, line); break;
+        case 10: STRNCMP_EQUAL_LOCATION("abcd", "abxd", 3, text, file, line); break;
+        case 11: STRCMP_NOCASE_EQUAL_LOCATION("abc", "ABD", text, file, line); break;
+        case 12: STRCMP_CONTAINS_LOCATION("zz", "abc", text, file, line); break;
+        case 13: STRCMP_NOCASE_CONTAINS_LOCATION("ZZ", "abc", text, file, line); break;
+        case 14: UNSIGNED_LONGS_EQUAL_LOCATION(1, 2, text, file, line); break;
+        case 15: LONGLONGS_EQUAL_LOCATION(1, 2, text, file, line); break;
+        case 16: UNSIGNED_LONGLONGS_EQUAL_LOCATION(1, 2, text, file, line); break;
+        case 17: SIGNED_BYTES_EQUAL_TEXT_LOCATION(1, 2, text, file, line); break;
+        case 18: FUNCTIONPOINTERS_EQUAL_LOCATION((void (*)())0x1000, (void (*)())0x2000, text, file, line); break;
+        case 19: BITS_LOCATION(0x0f, 0xf0, 0xff, text, file, line); break;
+        case 20: STRCMP_EQUAL_LOCATION((const char*)0, "abd", text, file, line); break;
+        case 21: MEMCMP_EQUAL_LOCATION((const void*)0, blobB, 4, text, file, line); break;
+        case 22: FAIL_TEST_LOCATION(text, file, line); break;
+        default: ENUMS_EQUAL_TYPE_LOCATION(int, 1, 2, text, file, line); break;
         }
         break;
-    case K_FAIL_C:
-        switch (o.a) {
-        case 0: CHECK_C_LOCATION(0, "cond_c", text, file, line); break;
-        case 1: FAIL_TEXT_C_LOCATION(text, file, line); break;
-        case 2: CHECK_EQUAL_C_INT_LOCATION(1, 2, text, file, line); break;
-        default: CHECK_EQUAL_C_STRING_LOCATION("abc", "abd", text, file, line); break;
-        }
-        break;
+    case K_FAIL_C: failCStyle(o, text, file, line); break;
 #if CPPUTEST_HAVE_EXCEPTIONS
     case K_THROW_STD: throw std::runtime_error(text);
     case K_THROW_FOREIGN: if (o.a == 0) throw 42; else { Foreign f; f.x = 7; throw f; }
